@@ -590,7 +590,7 @@ Definition file_decls_to (to : value) : list value :=
 (* report for one step: are the side conditions met; for each declaration the script pairs as
    identical: its index, whether all its comments are attached in the sense above, and
    whether every call keeps clear of them *)
-Definition decl_report (from to : value) (calls : list region) : option (bool * list (nat * bool * bool)) :=
+Definition decl_report (from to : value) (calls : list region) : option (bool * list (nat * bool * list (Z * Z))) :=
   match file_decls from with
   | None => None
   | Some (r, xs) =>
@@ -599,7 +599,7 @@ Definition decl_report (from to : value) (calls : list region) : option (bool * 
             flat_map (fun jx => let '(j, x, e) := jx in
                         if is_identity e then
                           let cs := filter (fun c => fst c <? snd c) (own_comments x) in
-                          [(j, forallb (attachedb xs j x) cs, forallb (fun c => forallb (clearb c) calls) cs)]
+                          [(j, forallb (attachedb xs j x) cs, filter (fun c => negb (forallb (clearb c) calls)) cs)]
                         else [])
                      (combine (combine (seq 0 (length xs)) xs) es))
   end.
